@@ -1,7 +1,7 @@
 """Scenario family + adapter for PollExecutor / PollFuture / PollDescriptor against Model/Poll.v.
 Times: everything scripted happens at even virtual times, the scenario ends at an odd one, so nothing is
 cut in the middle of an instant.  Identity of a descriptor = the delegate's result = 100 + submission index."""
-import random, itertools
+import random, itertools, weakref
 import detsched as det
 import lib
 from lib import Manual
@@ -22,6 +22,44 @@ class FXE(XE):
 
     def __bool__(self):
         return False
+
+
+class YList(list):
+    """PollExecutor._poll_descriptors: iteration OUTSIDE the executor lock offers the baton between elements.
+    _run_cancel_fn scans this list without the lock; the scan is atomic only as long as nobody mutates the list
+    object in place (the library replaces it by a new list under the lock), so the scan has to be preemptible for
+    an in-place mutation to be observable at all."""
+    _ex_ref = None
+
+    def __iter__(self):
+        ex = self._ex_ref() if self._ex_ref is not None else None
+        lk = ex.__dict__.get("_lock") if ex is not None else None
+        i = 0
+        while i < len(self):
+            x = self[i]
+            i += 1
+            yield x
+            cur = det.me()
+            if (cur is not None and det.S is not None and not det.S.quiet and not det.S.aborting
+                    and lk is not None and getattr(lk, "owner", None) is not cur):
+                det.switch("scan")
+
+
+def setup():
+    """instrumentation from outside: every list assigned to PollExecutor._poll_descriptors becomes a YList"""
+    from more_executors._impl import poll
+    if getattr(poll, "_verif_ylist", False):
+        return
+    poll._verif_ylist = True
+
+    def _get(self):
+        return self.__dict__.get("_verif_pd")
+
+    def _set(self, v):
+        y = YList(v)
+        y._ex_ref = weakref.ref(self)
+        self.__dict__["_verif_pd"] = y
+    poll.PollExecutor._poll_descriptors = property(_get, _set)
 
 
 class PManual(Manual):
